@@ -84,9 +84,102 @@ def contains(toks, lo, hi, seq):
     return find_seq(toks, seq, lo, hi) >= 0
 
 
+def fn_ranges(toks):
+    """(name, open, close) of every `fn name ... { ... }` (a declaration without body - a trait item - is skipped)"""
+    res = []
+    for i in range(len(toks) - 2):
+        if toks[i].text == "fn" and toks[i + 1].kind == "id":
+            j = i + 2
+            while j < len(toks) and toks[j].text not in ("{", ";"):
+                if toks[j].text in ("(", "[") :
+                    j = match_group(toks, j)
+                j += 1
+            if j < len(toks) and toks[j].text == "{":
+                res.append((toks[i + 1].text, j, match_group(toks, j)))
+    return res
+
+
+def enclosing_fns(toks, ranges, seq):
+    """names of the functions (innermost, in source order, without repetition) whose body contains the token sequence"""
+    out = []
+    for i in find_all_seq(toks, seq):
+        best = None
+        for (nm, o, c) in ranges:
+            if o < i < c and (best is None or o > best[1]):
+                best = (nm, o, c)
+        nm = best[0] if best else "<top level>"
+        if nm not in out:
+            out.append(nm)
+    return out
+
+
+def gen_frame_switch(vm, info):
+    """round 7: WHERE the registers that say "which code is running" are written.  Vm.active_module must follow every change
+    of the running frame: the only writer besides reset is load_frame, every function that changes the top frame (push, pop,
+    truncate, switch of the running fiber) calls load_frame afterwards, and nobody restores active_chunk / ip by hand
+    (a hand-made restore that forgets active_module is exactly the class of the seeded changes C14-6/2 and C14-7/2)."""
+    rg = fn_ranges(vm)
+    sites = [
+        ("active_module=", enclosing_fns(vm, rg, ["self", ".", "active_module", "="])),
+        ("active_chunk=", enclosing_fns(vm, rg, ["self", ".", "active_chunk", "="])),
+        ("fiber.replace", enclosing_fns(vm, rg, ["self", ".", "fiber", ".", "replace", "("])),
+        ("fiber=", enclosing_fns(vm, rg, ["self", ".", "fiber", "="])),
+        ("unsafe_fiber=", enclosing_fns(vm, rg, ["self", ".", "unsafe_fiber", "="])),
+        ("frames.pop", enclosing_fns(vm, rg, ["frames", ".", "pop", "("])),
+        ("frames.truncate", enclosing_fns(vm, rg, ["frames", ".", "truncate", "("])),
+        ("push_call_frame", enclosing_fns(vm, rg, [".", "push_call_frame", "("])),
+        ("load_frame()", enclosing_fns(vm, rg, ["self", ".", "load_frame", "("])),
+        ("load_fiber()", enclosing_fns(vm, rg, ["self", ".", "load_fiber", "("])),
+        ("unload_fiber()", enclosing_fns(vm, rg, ["self", ".", "unload_fiber", "("])),
+    ]
+    info["frame_switch_sites"] = [[k, v] for k, v in sites]
+    # in the two functions that switch the running fiber: load_frame is called after the switch, unconditionally (directly
+    # in the function's outermost block), and nothing returns Ok in between
+    ok = True
+    for f in ("load_fiber", "unload_fiber"):
+        try:
+            o, c = fn_body(vm, f)
+        except ValueError:
+            ok = False
+            continue
+        sw = find_seq(vm, ["self", ".", "fiber", ".", "replace", "("], o, c)
+        lf = find_all_seq(vm, ["self", ".", "load_frame", "(", ")", ";"], o, c)
+        if sw < 0 or not lf:
+            ok = False
+            continue
+        last = lf[-1]
+        depth = 0
+        for j in range(o + 1, last):
+            if vm[j].text == "{":
+                depth += 1
+            elif vm[j].text == "}":
+                depth -= 1
+        ok = ok and last > sw and depth == 0 and not contains(vm, sw, last, ["return", "Ok", "("]) \
+            and not contains(vm, sw, last, ["Ok", "(", "(", ")", ")"])
+    info["fiber_switch_then_loads"] = bool(ok)
+    # return_impl: the branch for a finished fiber hands back through unload_fiber; the ordinary branch calls load_frame
+    # directly in the function's outermost block
+    o, c = fn_body(vm, "return_impl")
+    fin = find_seq(vm, ["if", "self", ".", "active_fiber", "(", ")", ".", "has_finished", "(", ")", "{"], o, c)
+    rok = False
+    if fin >= 0:
+        fo, fc = body_after(vm, fin)
+        lf = find_seq(vm, ["self", ".", "load_frame", "(", ")", ";"], fc, c)
+        depth = 0
+        for j in range(o + 1, lf if lf >= 0 else o + 1):
+            if vm[j].text == "{":
+                depth += 1
+            elif vm[j].text == "}":
+                depth -= 1
+        rok = (contains(vm, fo, fc, ["self", ".", "unload_fiber", "("]) and lf >= 0 and depth == 0
+               and find_seq(vm, ["frames", ".", "pop", "("], o, c) < fin)
+    info["return_finished_fiber_unloads"] = bool(rok)
+
+
 def gen_import_arms(man):
     vm = toks_of("vm.rs")
     info = {}
+    gen_frame_switch(vm, info)
     o, c = fn_body(vm, "start_import_impl")
     stages = {
         "registry": find_seq(vm, ["self", ".", "modules", ".", "get", "("], o, c),
@@ -421,6 +514,10 @@ def gen_import_arms(man):
     L.append("Definition gen_unwind_truncates_then_loads : bool := %s." % b(info["unwind_truncates_then_loads"]))
     L.append("Definition gen_globals_use_active_module : bool := %s." % b(info["globals_use_active_module"]))
     L.append("Definition gen_closure_takes_active_module : bool := %s." % b(info["closure_takes_active_module"]))
+    L.append("Definition gen_frame_switch_sites : list (string * list string) := [%s]."
+             % "; ".join("(%s, %s)" % (coq_str(k), coq_list(v)) for k, v in info["frame_switch_sites"]))
+    L.append("Definition gen_fiber_switch_then_loads : bool := %s." % b(info["fiber_switch_then_loads"]))
+    L.append("Definition gen_return_finished_fiber_unloads : bool := %s." % b(info["return_finished_fiber_unloads"]))
     L.append("Definition gen_default_loader_read_error_kinds : list string := %s." % coq_list(info["default_loader_read_error_kinds"]))
     L.append("Definition gen_default_loader_reasons : list (string * string) := [%s]." % "; ".join("(%s, %s)" % (coq_str(n), coq_str(t)) for n, t in info["default_loader_reasons"]))
     L.append("Definition gen_default_loader_default_reason : string := %s." % coq_str(info["default_loader_default_reason"]))
